@@ -97,7 +97,7 @@ def run_vector(vec, emb, pool, eid, recv=None):
                 each.append(union_fold(ivs, pj))
             if pts:
                 each.append(union_fold(pts, pj))
-    buf = io.StringIO()
+    cap = common.Capture()
     st, pe, ret, rett = "ok", False, None, None
     before_ids = [id(t) for t in recv.tiers]
     sentinel = b"previous content of the destination \xff\x00\n"
@@ -108,7 +108,7 @@ def run_vector(vec, emb, pool, eid, recv=None):
         os.close(fd)
         a = dict(a, _path=path)
     try:
-        with contextlib.redirect_stdout(buf):
+        with cap:
             if op == "addTier":
                 recv.addTier(argt, None if a["idx"] == 99 else a["idx"], a["mode"])
             elif op == "removeTier":
@@ -172,7 +172,7 @@ def run_vector(vec, emb, pool, eid, recv=None):
         "st": st, "pe": pe, "ret": proj_tg(pj, ret if isinstance(ret, textgrid.Textgrid) else None),
         "rett": pj.tier(rett) if rett is not None else T.NONE,
         "post": proj_tg(pj, recv), "argtpost": pj.tier(argt), "argtgpost": proj_tg(pj, argtg),
-        "out": buf.getvalue() != "", "each": each, "valid": valid, "alias": alias, "filesame": filesame,
+        "out": cap.any, "each": each, "valid": valid, "alias": alias, "filesame": filesame,
         "arith": True, "exactfp": emb.dyadic, "offgrid": 0, "emb": emb.name, "variant": eid % 4,
         "pool": next((k for k, v in T.POOLS.items() if v is pool), "ascii"),
     }
